@@ -706,6 +706,7 @@ func (s *Service) serve(nc Conn) error {
 // Shutdown closes any existing connection to NATS Server.
 // Returns an error if service is not started.
 func (s *Service) Shutdown() error {
+	simYield("Shutdown", "")
 	if !atomic.CompareAndSwapInt32(&s.state, stateStarted, stateStopping) {
 		return errNotStarted
 	}
@@ -715,6 +716,7 @@ func (s *Service) Shutdown() error {
 
 	// Wait for all workers to be done
 	s.wg.Wait()
+	simYield("Shutdown.afterWait", "")
 
 	s.inCh = nil
 	s.nc = nil
@@ -727,13 +729,17 @@ func (s *Service) Shutdown() error {
 
 // close calls Close on the NATS connection, and closes the incoming channel
 func (s *Service) close() {
+	simYield("close.beforeLock", "")
 	s.mu.Lock()
 	s.workqueue = nil
 	s.mu.Unlock()
 	s.workcond.Broadcast()
+	simYield("close.afterBroadcast", "")
 
 	s.nc.Close()
+	simYield("close.afterConnClose", "")
 	close(s.inCh)
+	simYield("close.afterCloseInCh", "")
 }
 
 // Reset sends a system reset for the provided resource patterns.
@@ -927,6 +933,7 @@ func (s *Service) startListener(ch chan *nats.Msg) {
 
 // handleRequest is called by the nats listener on incoming messages.
 func (s *Service) handleRequest(m *nats.Msg) {
+	simYield("handleRequest", m.Subject)
 	subj := m.Subject
 	s.tracef("==> %s: %s", subj, m.Data)
 
@@ -976,6 +983,7 @@ func (s *Service) runWith(wid string, cb func()) {
 	if atomic.LoadInt32(&s.state) != stateStarted {
 		return
 	}
+	simYield("runWith.beforeLock", wid)
 
 	s.mu.Lock()
 	// Get current work queue for the resource
@@ -998,10 +1006,12 @@ func (s *Service) runWith(wid string, cb func()) {
 		s.workqueue = append(s.workqueue, w)
 		s.mu.Unlock()
 		s.workcond.Signal()
+		simYield("runWith.afterSignal", wid)
 	} else {
 		// Append callback to existing work queue
 		w.queue = append(w.queue, cb)
 		s.mu.Unlock()
+		simYield("runWith.afterAppend", wid)
 	}
 }
 
@@ -1062,6 +1072,7 @@ func (s *Service) Resource(rid string) (Resource, error) {
 // event marshals the data and publishes it on a subject, and logs it as an
 // outgoing event.
 func (s *Service) event(subj string, data interface{}) {
+	simYield("event", subj)
 	if data == nil {
 		s.rawEvent(subj, nil)
 		return
@@ -1080,6 +1091,7 @@ func (s *Service) event(subj string, data interface{}) {
 // rawEvent publishes the payload on a subject, and logs it as an outgoing
 // event.
 func (s *Service) rawEvent(subj string, payload []byte) {
+	simYield("rawEvent", subj)
 	s.tracef("<-- %s: %s", subj, payload)
 	err := s.nc.Publish(subj, payload)
 	if err != nil {
@@ -1180,7 +1192,9 @@ func (s *Service) processRequest(m *nats.Msg, rtype, rname, method string, mh *M
 
 func (s *Service) queryEventExpire(v interface{}) {
 	qe := v.(*queryEvent)
+	simYield("queryEventExpire", qe.r.rname)
 	qe.sub.Drain()
+	simYield("queryEventExpire.afterDrain", qe.r.rname)
 	s.runWith(qe.r.Group(), func() {
 		qe.cb(nil)
 	})
